@@ -120,6 +120,21 @@ def check_closure(ctx):
     fns = closure_functions(ctx)
     ctx.setcount('closure_functions', len(fns))
     nsites = 0
+    # helpers that convert token text for the grammar actions (`def float_token_value(text): return float(text)`): the action analysis follows the token into them
+    # and judges the conversion there (R4: the text of a numeric token, with its digit bound) - judged here they would be "float() of arbitrary text"
+    action_callees, other_callees = set(), set()
+    for d_ in DIALECTS:
+        g_ = load_dialect(ctx.src, d_)
+        for p_ in g_.productions[1:]:
+            if p_.func is not None:
+                for c_ in ast.walk(p_.func):
+                    if isinstance(c_, ast.Call) and isinstance(c_.func, ast.Name):
+                        action_callees.add(c_.func.id)
+    for _f, _nm, fn_ in fns:
+        for c_ in walk_no_nested(fn_):
+            if isinstance(c_, ast.Call) and isinstance(c_.func, ast.Name):
+                other_callees.add(c_.func.id)
+    converters = {nm_ for _f, nm_, fn_ in fns if nm_ in action_callees and nm_ not in other_callees and len(fn_.args.args) >= 1}
     for f, nm, fn in fns:
         for n in walk_no_nested(fn):
             # explicit raises
@@ -146,6 +161,9 @@ def check_closure(ctx):
                        f'{nm} uses `assert {norm(n.test)[:60]}` on the parse path: AssertionError on user input', file=f, line=n.lineno)
             if isinstance(n, ast.Call):
                 d = dotted(n.func)
+                if d in ('int', 'float') and nm in converters and n.args and isinstance(n.args[0], ast.Name) and n.args[0].id in {a.arg for a in fn.args.args}:
+                    ctx.note(f'{nm}: `{norm(n)[:40]}` converts a parameter that the grammar actions fill with token text: judged by the action analysis (R4)')
+                    continue
                 if d in PARTIAL_CALLS:
                     desc, total = PARTIAL_CALLS[d]
                     guarded = total(n)
